@@ -114,6 +114,14 @@ func cmdDump(args []string) {
 			for _, n := range a.notes {
 				fmt.Println("   NOTE:", n)
 			}
+			if os.Getenv("DBGSITES") != "" {
+				for _, s := range a.sites {
+					fmt.Printf("   site %s %s inl=%v val=%s\n", s.Callee, s.Where(w), s.Inlined, s.Val)
+					for i, ar := range s.Args {
+						fmt.Printf("        arg%d = %s\n", i, ar)
+					}
+				}
+			}
 			for _, s := range a.Effects() {
 				fmt.Printf("   effect E(%d) %-8s %s %s\n", s.EIdx, s.Effect, s.Callee, s.Where(w))
 				for i, ar := range s.Args {
